@@ -639,13 +639,15 @@ class XsdAttributeGroup(
     def iter_value_constraints(self, use_defaults: bool = True) -> Iterator[tuple[str, str]]:
         if use_defaults:
             for k, v in self._attribute_group.items():
-                if v.fixed is not None and k:
+                if not k or v.use == 'prohibited':
+                    continue
+                elif v.fixed is not None:
                     yield k, v.fixed
-                elif v.default is not None and k:
+                elif v.default is not None:
                     yield k, v.default
         else:
             for k, v in self._attribute_group.items():
-                if v.fixed is not None and k:
+                if v.fixed is not None and k and v.use != 'prohibited':
                     yield k, v.fixed
 
     def iter_components(self, xsd_classes: ComponentClassType = None) \
@@ -707,7 +709,7 @@ class XsdAttributeGroup(
                     context.validation_error(validation, self, reason, obj)
                     continue
             else:
-                if xsd_attribute.use == 'prohibited' and xsd_attribute.fixed is None and \
+                if xsd_attribute.use == 'prohibited' and \
                         (None not in self or not self._attribute_group[None].is_matching(name)):
                     reason = _("use of attribute %r is prohibited") % name
                     context.validation_error(validation, self, reason, obj)
